@@ -426,6 +426,18 @@ def render_file(path, module, moddir, ctx):
         # derived denotations
         body = src[f.body_start:f.body_end] if f.has_body else None
         sigtext = src[f.sig_start:f.sig_end]
+        if key in ctx.get('external', ()) and f.has_body:
+            # even the signature is outside the verifier's dialect (e.g. a function-pointer parameter): hide the function
+            # from Verus altogether; its callers then fail to resolve it and become opaque in the next round
+            edits.append(Edit(f.sig_start, f.sig_start, '/*@FN:%s@*/#[verifier::external]\n    ' % key))
+            edits.append(Edit(f.body_end, f.body_end, '/*@ENDFN@*/'))
+            info.opaque.append(key)
+            info.functions.append({'key': key, 'file': rel, 'has_body': True, 'has_contract': bool(fncontracts.get(key)), 'props': [],
+                                   'calls': [], 'mut_self': False, 'returns_self': False,
+                                   'body_sha256': sha(src[f.body_start:f.body_end]), 'body': src[f.body_start:f.body_end], 'prologue': False, 'external_body': True})
+            if key in fncontracts:
+                info.used_contracts.add(key)
+            continue
         opaque = key in ctx.get('opaque', ())
         if not opaque and f.has_body:
             # a body the derivation rules cannot translate is treated like one the verifier cannot read
@@ -574,10 +586,10 @@ MARK = re.compile(r'/\*@(OB|FN|ENDFN|GHOST|ENDGHOST|DERIVED|ENDDERIVED|LEMMA|END
 CELL = re.compile(r'//\s*CELL\s+(.+?)\s*$')
 
 
-def generate(repo, contracts_dir, lemma_texts=(), out_path=None, opaque=(), probe=False):
+def generate(repo, contracts_dir, lemma_texts=(), out_path=None, opaque=(), probe=False, external=()):
     fncontracts, ghosts = vspec.load_dir(contracts_dir)
     info = GenInfo()
-    ctx = {'info': info, 'fncontracts': fncontracts, 'ghosts': ghosts, 'repo': repo, 'opaque': set(opaque), 'probe': probe, 'helpers': set()}
+    ctx = {'info': info, 'fncontracts': fncontracts, 'ghosts': ghosts, 'repo': repo, 'opaque': set(opaque), 'probe': probe, 'helpers': set(), 'external': set(external)}
     srcdir = os.path.join(repo, 'src')
     body = render_file(os.path.join(srcdir, 'lib.rs'), '', srcdir, ctx)
     # lost anchors: contracts / ghost sections whose item no longer exists. They are recorded, not fatal: the caller
